@@ -65,9 +65,10 @@ def plan(tier):
                         "point whose mass is maximal within the tolerance, credible interval ends = any index "
                         "satisfying the quantile inequalities within the tolerance, sample = any subsequence with at "
                         "most n entries ending in the last entry, MAP event = any of maximal joint probability, tied "
-                        "PEPs = any rank inside the tie; the exact choices of the code (stride of sample, reduce on "
-                        "sub-tolerance masses, stable rank of ties, one likelihood evaluation per listed member) are "
-                        "machine-layer conformance (MODEL-DRIFT, not an alarm)",
+                        "PEPs = any rank inside the tie, reduce = drops every entry without mass and keeps every entry "
+                        "whose mass exceeds the tolerance; the exact choices of the code (stride of sample, stable "
+                        "rank of ties, one likelihood evaluation per listed member) are machine-layer conformance "
+                        "(MODEL-DRIFT, not an alarm)",
                         "adaptive integration is claimed for densities that are linear on the whole interval, two linear "
                         "pieces meeting at the midpoint (the first grid point added), or symmetric about their mode with "
                         "strictly ordered end values; the maximum search compares the two window ends only, so on skewed "
